@@ -5,9 +5,10 @@
     waits for its deletion, and the RFC 7296 2.25 collision answers (property theorems only).
     [step_ok a b] := allowed a b = true /\ In b all_states. *)
 From Coq Require Import ZArith NArith Bool List.
+From RecordUpdate Require Import RecordSet.
 From VLib Require Import Bytes.
 From IkeSa Require Import Gen.IkeFacts Shell Hdl Transitions HdlAuth HdlTrans.
-Import ListNotations.
+Import ListNotations RecordSetNotations.
 Open Scope Z_scope.
 
 Theorem C09H_step_ok : forall a b, step_ok a b <-> allowed a b = true /\ In b all_states.
@@ -42,6 +43,24 @@ Theorem C09H_process_response_single_step_refuted :
     allowed (state (hdl_iface E) s) (state (hdl_iface E) (fst (process_response (hdl_iface E) s m now))) = false.
 Proof. exact process_response_single_step_refuted. Qed.
 Print Assumptions C09H_process_response_single_step_refuted.
+
+(** a response handler that raised ([RErr r]; also: no handler for the exchange type, tape mismatch): for a response
+    with the expected Message ID and a known exchange type the IkeSa ends DELETED and nothing is sent, whatever the
+    flag [r] ("the handler had already executed self.my_msg_id = 0") says; the handler-owned state is what the
+    handler left, [r] only decides what the Message ID counter of the dead IkeSa reads *)
+Theorem C09H_response_error_ends_the_ike_sa : forall E (s : sa (hdl_iface E)) (m : pmsg body) (now : Z) (r : bool),
+  res_id_unexpected (h_id (p_hdr m)) (peer_id (hdl_iface E) s) (my_id (hdl_iface E) s) = false ->
+  existsb (Z.eqb (h_exch (p_hdr m))) response_exchanges = true ->
+  snd (h_response E (inner (hdl_iface E) s) m) = RErr r ->
+  state (hdl_iface E) (fst (process_response (hdl_iface E) s m now)) = ST_DELETED
+  /\ snd (process_response (hdl_iface E) s m now) = None
+  /\ inner (hdl_iface E) (fst (process_response (hdl_iface E) s m now))
+     = (fst (h_response E (inner (hdl_iface E) s) m))
+         <| co := (co (fst (h_response E (inner (hdl_iface E) s) m))) <| st := ST_DELETED |> |>
+  /\ my_id (hdl_iface E) (fst (process_response (hdl_iface E) s m now))
+     = (if r then 0 else my_id (hdl_iface E) s + 1).
+Proof. exact response_error_ends_the_ike_sa. Qed.
+Print Assumptions C09H_response_error_ends_the_ike_sa.
 
 Theorem C09H_process_message_step : forall E (s : sa (hdl_iface E)) m now,
   In (state (hdl_iface E) s) all_states ->
